@@ -145,9 +145,9 @@ def run(ck: common.Check):
         ck.log("coq build failed; correspondence and search still run against the last good model if present")
 
     # ------------------------------------------------------------------ 2. the real implementation
-    n_prog = ck.n(70, 900)
-    n_expr = ck.n(400, 3000)
-    n_parse = ck.n(400, 3000)
+    n_prog = ck.n(50, 750)
+    n_expr = ck.n(250, 3000)
+    n_parse = ck.n(250, 3000)
     budget = ck.n(70, 780)
     sdir = common.scratch_dir("c17_run")
     out = sdir / "impl.jsonl"
@@ -238,7 +238,7 @@ def run(ck: common.Check):
                                                if ck.stream("expr-parse")["diverge"] < 2 else ""})
         for r, v in zip(parses, allres.get("parse", [])):
             ck.case("parse-tokens", r["text"], len(r["text"]) > 5, {"text": r["text"], "real_front_end": r["parsed"] or r["err"]},
-                    tag="accepted" if r["parsed"] else "rejected")
+                    tag=("malformed:" if r.get("malformed") else "valid:") + ("accepted" if r["parsed"] else "rejected"))
             if v is None:
                 continue
             if v[0]:
